@@ -203,7 +203,8 @@ A multi-pack index is ONE installation (`Bundle.multi = true`, its index loaded 
 stands for several packs: `Ev.consSetFilesM k file extra` installs one for `extra + 1` packs, each with its
 own load state (`Bundle.packAt`); a snapshot keeps it as one entry per pack (`Entry.pk`, `entriesOf`), and
 `load_pack` (`lp1`…`lp5` on such an entry) reads and loads pack `pk` of whatever installation the slot holds
-(a number that installation does not have: `None`). When the file changes (`git multi-pack-index write`,
+(a number that installation does not have: `None`); `load_index` on a loaded multi-pack index forgets which of
+its packs were open (`loadIdx`, `Bundle.resetPacks` — as the code does). When the file changes (`git multi-pack-index write`,
 `git repack --write-midx`) `consolidate_with_disk_state` installs the new file in ANOTHER slot
 (`consSetGen k'`, `consSetFilesM k' file' extra'`), publishes, and clears the old slot (`consClearGen k`,
 `consClearFiles k`) — the `index_paths_to_add.iter().any(|t| t.2.is_some())` half of the "needs a new
